@@ -60,6 +60,24 @@ package deneb
 //@   ensures (err != nil) == exhdr_raw_err_deneb(v)
 //@   ensures err == nil ==> r != nil && r == exhdr_raw_deneb(v)
 
+// ---------------------------------------------------------------- voluntary exits from deneb on (C03, EIP-7044)
+// process_voluntary_exit's conditions as in phase0, except that the signature domain is fixed to the capella fork
+// version: compute_domain(DOMAIN_VOLUNTARY_EXIT, CAPELLA_FORK_VERSION, genesis_validators_root).
+//@ sort PcPtr = *common.PubkeyCache
+//@ sort CPubP = *common.CachedPubkey
+//@ func ValidateVoluntaryExit(spec, epc, state, signedExit) err
+//@   property C03
+//@   requires spec != nil && epc != nil && state != nil && signedExit != nil && epc.CurrentEpoch != nil && epc.ValidatorPubkeyCache != nil
+//@   requires caches: forall r PcPtr :: {pctrig(r)} pctrig(r) && alloc(r) ==> pc_local(r.pub2idx, r.idx2pub, r.trustedParentCount) && pc_chain(r.parent, r, r.trustedParentCount, r.parent.trustedParentCount, len(r.parent.idx2pub))
+//@   requires nolocks: forall r PcPtr :: {held(r.rwLock)} held(r.rwLock) == 0
+//@   assigns heap(CachedPubkey.decompressed)
+//@   ensures index: err == nil ==> !st_vals_err(state) && reg_valid(st_vals(state), signedExit.Message.ValidatorIndex)
+//@   ensures active: err == nil ==> (let v := reg_val(st_vals(state), signedExit.Message.ValidatorIndex) in v_act(v) <= epc.CurrentEpoch.Epoch && epc.CurrentEpoch.Epoch < v_exit(n_val_write, v))
+//@   ensures not_exiting: err == nil ==> v_exit(n_val_write, reg_val(st_vals(state), signedExit.Message.ValidatorIndex)) == common.FAR_FUTURE_EPOCH
+//@   ensures epoch_reached: err == nil ==> signedExit.Message.Epoch <= epc.CurrentEpoch.Epoch
+//@   ensures aged: err == nil ==> (v_act(reg_val(st_vals(state), signedExit.Message.ValidatorIndex)) + spec.SHARD_COMMITTEE_PERIOD) % 18446744073709551616 <= epc.CurrentEpoch.Epoch
+//@   ensures signature: err == nil ==> !st_gvr_err(state) && sig_valid(signedExit.Signature) && (exists p CPubP :: pub_valid(p.Compressed) && bls_ok(p.Compressed, seq(signing_root(exit_root(signedExit.Message), compute_domain(common.DOMAIN_VOLUNTARY_EXIT, spec.CAPELLA_FORK_VERSION, st_gvr(state)))), signedExit.Signature))
+
 // BEGIN C18 generated (tools/gen_c18.py in /verif)
 // cancelled: a context cancelled before the call makes it fail; surfaced: a cancellation observed by a poll
 // during the call makes it fail; polled: success after a poll means the context was not cancelled at entry.
@@ -155,6 +173,7 @@ package deneb
 //@     invariant ctx_t >= old(ctx_t) && (old(ctx_seen) || !ctx_seen)
 //@     invariant ctx_t > old(ctx_t) ==> !ctx_cancelled(ctx, old(ctx_t))
 //@   assigns ghost(n_set_score)
+//@   assigns ghost(n_biter), ghost(biter_pos), ghost(biter_reg), ghost(n_set_eb)
 //@   assigns ghost(n_eth1_reset), ghost(n_slash_reset), ghost(last_slash_reset), ghost(n_set_mix), ghost(last_set_mix_epoch), ghost(last_set_mix), ghost(n_hist_update)
 //@   assigns ghost(n_set_prevjust), ghost(set_prevjust), ghost(n_set_curjust), ghost(set_curjust), ghost(n_set_fin), ghost(set_fin), ghost(n_set_jbits), ghost(set_jbits)
 //@   assigns ghost(n_viter), ghost(viter_pos), ghost(viter_reg), ghost(n_val_write), ghost(n_set_exit), ghost(set_exit_v), ghost(set_exit_val), ghost(n_set_wd), ghost(set_wd_v), ghost(set_wd_val)
@@ -174,6 +193,7 @@ package deneb
 //@     invariant ctx_t >= old(ctx_t) && (old(ctx_seen) || !ctx_seen)
 //@     invariant ctx_t > old(ctx_t) ==> !ctx_cancelled(ctx, old(ctx_t))
 //@   assigns ghost(n_eng_notify), ghost(n_set_exec_header)
+//@   assigns ghost(n_set_wcred), ghost(set_wcred_v), ghost(set_wcred_val)
 //@   assigns ghost(n_set_mix), ghost(last_set_mix_epoch), ghost(last_set_mix)
 //@   assigns ghost(n_set_lhdr), ghost(set_lhdr)
 //@   assigns ghost(n_viter), ghost(viter_pos), ghost(viter_reg), ghost(n_val_write), ghost(n_set_exit), ghost(set_exit_v), ghost(set_exit_val), ghost(n_set_wd), ghost(set_wd_v), ghost(set_wd_val)
